@@ -120,9 +120,40 @@ static void op_tally(const McArg *a) {
     mc_nontrivial();
     MC_CHECK((int64_t)g_tally[r] == spec_numcells(r), "resolution %d: %" PRIu64 " cells round-tripped, expected %" PRId64, r, g_tally[r], spec_numcells(r));
 }
-enum { OP_RT, OP_RTN, OP_SUB, OP_COUNTS, OP_TALLY };
-const McOp MC_OPS[] = {{"rt", "h", op_rt}, {"rtn", "h", op_rtn}, {"sub", "hi", op_sub}, {"counts", "", op_counts}, {"tally", "i", op_tally}};
-const int MC_NOPS = 5;
+// census(r, bc): every one of the 8^r digit strings under base-cell number bc (0..127) at resolution r (unused digits 7, mode 1) is put to
+// isValidCell; the number accepted must be 7^r (hexagon base cell), 1+5(7^r-1)/6 (pentagon base cell) or 0 (bc >= 122), so that the valid
+// cells of a resolution number exactly 2+120*7^r = getNumCells(r); and every accepted value must round-trip through its centre.
+static void op_census(const McArg *a) {
+    int r = (int)a[0].i, bc = (int)a[1].i;
+    uint64_t n = 1, acc = 0;
+    for (int i = 0; i < r; i++) n *= 8;
+    uint64_t base = ((uint64_t)1 << 59) | ((uint64_t)r << 52) | ((uint64_t)bc << 45);
+    for (uint64_t f = 0; f < n; f++) {
+        uint64_t h = base;
+        for (int i = 1; i <= 15; i++) {
+            uint64_t d = i <= r ? (f >> (3 * (r - i))) & 7 : 7;
+            h |= d << (3 * (15 - i));
+        }
+        if (!isValidCell(h)) continue;
+        acc++;
+        LatLng g;
+        uint64_t back = 0;
+        H3Error e = cellToLatLng(h, &g);
+        if (e || latLngToCell(&g, r, &back) || back != h) {
+            mc_fail("isValidCell accepts %" PRIx64 " but it does not round-trip through its centre (cellToLatLng %d, back %" PRIx64 ")", h, e, back);
+            return;
+        }
+    }
+    mc_trans(n);
+    int64_t p7 = 1;
+    for (int i = 0; i < r; i++) p7 *= 7;
+    int64_t want = bc >= 122 ? 0 : spec_is_pent_bc(bc) ? 1 + 5 * (p7 - 1) / 6 : p7;
+    if (spec_is_pent_bc(bc) || bc >= 120) mc_nontrivial();
+    MC_CHECK((int64_t)acc == want, "resolution %d, base cell %d: isValidCell accepts %" PRIu64 " index values, the cell count formula 2+120*7^r needs %" PRId64, r, bc, acc, want);
+}
+enum { OP_RT, OP_RTN, OP_SUB, OP_COUNTS, OP_TALLY, OP_CENSUS };
+const McOp MC_OPS[] = {{"rt", "h", op_rt}, {"rtn", "h", op_rtn}, {"sub", "hi", op_sub}, {"counts", "", op_counts}, {"tally", "i", op_tally}, {"census", "ii", op_census}};
+const int MC_NOPS = 6;
 
 static int g_fullmax;
 static void ph_full(void *u) {
@@ -144,6 +175,15 @@ static void ph_tally(void *u) {
     MC_RUN(OP_COUNTS, H(0));
     for (int r = 0; r <= g_fullmax; r++) MC_RUN(OP_TALLY, I(r));
 }
+static void ph_census(void *u) {
+    uint64_t idx = 0;
+    for (int r = 0; r <= (mc_thorough ? 6 : 5); r++)
+        for (int bc = 0; bc < 128; bc++, idx++) {
+            if (!mc_mine(idx)) continue;
+            if (mc_expired()) return;
+            MC_RUN(OP_CENSUS, I(r), I(bc));
+        }
+}
 static U64Vec g_fine;
 static void ph_fine(void *u) {
     for (size_t i = 0; i < g_fine.n; i++) {
@@ -158,10 +198,11 @@ int main(int argc, char **argv) {
     g_fullmax = mc_thorough ? 8 : 6;
     g_tally = mc_shalloc(16 * 8);
     for (int r = 0; r <= 15; r++) dom_fine_raw(r, 0, &g_fine);
-    snprintf(mc_bounds, sizeof mc_bounds, "FULL(0..%d) complete (spec enumerator); FINE level %d families (%zu cells over all 16 resolutions) each with its geometric neighbours",
-             g_fullmax, 0, g_fine.n);
+    snprintf(mc_bounds, sizeof mc_bounds, "FULL(0..%d) complete (spec enumerator); census of all 128*8^r index values for r<=%d; FINE level %d families (%zu cells over all 16 resolutions) each with its geometric neighbours",
+             g_fullmax, mc_thorough ? 6 : 5, 0, g_fine.n);
     mc_phase("complete resolutions", ph_full, NULL);
     mc_phase("counts and tallies", ph_tally, NULL);
+    mc_phase("census of accepted index values", ph_census, NULL);
     mc_phase("fine families + neighbours", ph_fine, NULL);
     return mc_finish();
 }
